@@ -296,6 +296,11 @@ pub fn special_images(n: usize, w: usize, seed: u64) -> Vec<BitVec> {
         let mut t = next();
         fix_sum(&mut t, free);
         out.push(pack(&t));
+        // xor of all words zero
+        let mut t = next();
+        let x: u64 = t.iter().enumerate().filter(|(i, _)| *i != free).fold(0u64, |a, (_, &v)| a ^ v);
+        t[free] = x & mask;
+        out.push(pack(&t));
     }
     out.retain(|v| !v.is_zero());
     out
